@@ -37,6 +37,7 @@ package lintcmd
 //@ ghost verdict(all []caseFoldedString, sel []caseFoldedString, k caseFoldedString, n int) int = n <= 0 ? 0 : (hits(all, sel[n-1], k) ? (selNeg(sel[n-1]) ? 2 : 1) : verdict(all, sel, k, n-1))
 
 //@ func filterAnalyzerNames
+//@   pure
 //@   loop 1   invariant [nonnil] allowedChecks != nil
 //@   loop 2   invariant [nonnil] allowedChecks != nil
 //@   loop 3   invariant [nonnil] allowedChecks != nil
@@ -51,6 +52,31 @@ package lintcmd
 //@   loop 3   index m
 //@   loop 3   invariant [dom] forall k caseFoldedString :: {k in allowedChecks} (k in allowedChecks) == ((memb(allAnalyzers, k, m) && globHits(check.s, k.s)) || (k in loopentry(allowedChecks)))
 //@   loop 3   invariant [val] forall k caseFoldedString :: {allowedChecks[k]} (k in allowedChecks) ==> allowedChecks[k] == ((memb(allAnalyzers, k, m) && globHits(check.s, k.s)) ? b : loopentry(allowedChecks)[k])
+
+// ---- exit status (C11): "a lint run exits non-zero exactly when a non-ignored problem belongs
+// to the -fail set or is a compile, config or directive error (SARIF output always exits zero)" ----
+// a printed problem that makes the run fail
+//@ ghost fatalDiag(d diagnostic, exitOn map[caseFoldedString]bool, noCompile bool) bool = !(d.Category == "compile" && noCompile) && d.Severity != severityIgnored && get(exitOn, makeCaseFoldedString(d.Category))
+//@ ghost nfatal(ds []diagnostic, exitOn map[caseFoldedString]bool, noCompile bool, n int) int = n <= 0 ? 0 : nfatal(ds, exitOn, noCompile, n-1) + (fatalDiag(ds[n-1], exitOn, noCompile) ? 1 : 0)
+//@ lemma nfatal_nonneg(ds []diagnostic, exitOn map[caseFoldedString]bool, noCompile bool, n int)
+//@   requires 0 <= n
+//@   ensures  nfatal(ds, exitOn, noCompile, n) >= 0
+//@   induct   n
+//@   trigger  nfatal(ds, exitOn, noCompile, n)
+//@ func (*Command).printDiagnostics
+//@   uses     nfatal_nonneg
+//@   requires cmd != nil
+//@   modifies heap
+//@   may_panic
+//@   nosafe   all
+//@   loop 4   invariant [names]  len(analyzerNames) == len(cs)
+//@   loop 5   index n
+//@   loop 5   invariant [forced] shouldExit != nil && get(shouldExit, makeCaseFoldedString("staticcheck")) && get(shouldExit, makeCaseFoldedString("compile")) && get(shouldExit, makeCaseFoldedString("config"))
+//@   loop 5   invariant [failset] forall k caseFoldedString :: {k in shouldExit} k != makeCaseFoldedString("staticcheck") && k != makeCaseFoldedString("compile") && k != makeCaseFoldedString("config") ==> (k in shouldExit) == (k in filterAnalyzerNames(analyzerNames, fail)) && ((k in shouldExit) ==> shouldExit[k] == filterAnalyzerNames(analyzerNames, fail)[k])
+//@   loop 5   invariant [count]  numErrors == nfatal(diagnostics, shouldExit, cmd.flags.debugNoCompileErrors, n)
+//@   at return #3 assert [sarif]   istype(f, *sarifFormatter)
+//@   at return #4 assert [fail]    numErrors > 0 && !istype(f, *sarifFormatter)
+//@   at return #5 assert [success] numErrors == 0
 
 //@ prop C12
 
